@@ -460,17 +460,25 @@ func runPackLane(cfg *Config, rep *Report, gen func(r *Rng, i int) []*PCase) {
 	for i := 0; len(cases) < cfg.N; i++ {
 		cases = append(cases, gen(r, i)...)
 	}
+	// exact replay (-case): the recorded case takes the last slot (and arena) and is run first, alone
+	replayIdx := -1
+	var rc PCase
+	if loadReplayInput(cfg, "pack", &rc) {
+		if why := unsafeReplayedPCase(&rc); why != "" {
+			rep.ReplayNote("refused: " + why)
+		} else {
+			cases = append(cases, &rc)
+			replayIdx = len(cases) - 1
+		}
+	} else {
+		replayMissing(cfg, rep, "pack")
+	}
 	reqs := make([]string, len(cases))
 	impl := make([]string, len(cases))
 	human := make([]interface{}, len(cases))
 	var wg sync.WaitGroup
 	sem := make(chan struct{}, 16)
-	for i := range cases {
-		wg.Add(1)
-		sem <- struct{}{}
-		go func(i int) {
-			defer wg.Done()
-			defer func() { <-sem }()
+	runCase := func(i int) {
 			c := cases[i]
 			arena := filepath.Join(work, fmt.Sprintf("k%06d", i))
 			defer func() {
@@ -511,6 +519,22 @@ func runPackLane(cfg *Config, rep *Report, gen func(r *Rng, i int) []*PCase) {
 			if c.NoModel {
 				reqs[i] = ""
 			}
+	}
+	if replayIdx >= 0 {
+		rep.BeginReplay()
+		runCase(replayIdx)
+		rep.EndReplay(reqs[replayIdx])
+	}
+	for i := range cases {
+		if i == replayIdx {
+			continue
+		}
+		wg.Add(1)
+		sem <- struct{}{}
+		go func(i int) {
+			defer wg.Done()
+			defer func() { <-sem }()
+			runCase(i)
 		}(i)
 	}
 	wg.Wait()
@@ -529,6 +553,41 @@ func runPackLane(cfg *Config, rep *Report, gen func(r *Rng, i int) []*PCase) {
 		rep.OracleFailures[k].ReqIdx = remap[rep.OracleFailures[k].ReqIdx]
 	}
 	rep.Compare(cfg.Driver, rq, im, hu)
+}
+
+// unsafeReplayedPCase: a recorded tree is materialised below a fresh arena; its node paths must stay
+// there, and absolute link targets / sources / allow-list entries must be written with the @ARENA@
+// placeholder ("" = accepted).
+func unsafeReplayedPCase(c *PCase) string {
+	if len(c.Nodes) == 0 || c.Src == "" {
+		return "the recorded input is not a pack case (no tree / source)"
+	}
+	return unsafePNodes(c.Nodes, append([]string{c.Src}, c.Allow...))
+}
+
+func unsafePNodes(nodes []PNode, others []string) string {
+	placeholder := func(t string) string {
+		for _, ph := range []string{"@ARENA@", "@WORK@", "@WORKBASE@"} {
+			t = strings.Replace(t, ph, "PLACEHOLDER", 1)
+		}
+		return t
+	}
+	for _, n := range nodes {
+		if why := unsafeRelName(n.Path, false); why != "" {
+			return "tree node: " + why
+		}
+		if n.Kind == "l" {
+			if why := unsafeTarget(placeholder(n.Data)); why != "" {
+				return "link " + n.Path + ": " + why
+			}
+		}
+	}
+	for _, t := range others {
+		if why := unsafeTarget(placeholder(t)); why != "" {
+			return why
+		}
+	}
+	return ""
 }
 
 func B01(b bool) string {
@@ -832,11 +891,48 @@ func init() {
 			return
 		}
 		syscall.Umask(022)
-		for a := 0; a < cfg.N; a++ {
-			c := genPCase(r)
+		// exact replay (-case): the recorded input is {"case": tree and options, "fail_after": k}; the tree
+		// goes first through the lane and k is added to the failure offsets that are tried
+		var rin struct {
+			Case      *PCase `json:"case"`
+			FailAfter *int   `json:"fail_after"`
+		}
+		var rcase *PCase
+		if loadReplayInput(cfg, "pack-faults", &rin) && rin.Case != nil {
+			rcase = rin.Case
+		} else {
+			var plain PCase
+			if loadReplayInput(cfg, "pack-faults", &plain) && len(plain.Nodes) > 0 {
+				rcase = &plain
+			}
+		}
+		if rcase == nil {
+			replayMissing(cfg, rep, "pack-faults")
+		} else if why := unsafeReplayedPCase(rcase); why != "" {
+			rep.ReplayNote("refused: " + why)
+			rcase = nil
+		}
+		for a := -1; a < cfg.N; a++ {
+			var c *PCase
+			isReplay := a < 0
+			if isReplay {
+				if rcase == nil {
+					continue
+				}
+				c = rcase
+				rep.BeginReplay()
+			} else {
+				c = genPCase(r)
+			}
 			c.Allow = nil
 			arena := filepath.Join(work, fmt.Sprintf("w%05d", a))
+			if isReplay {
+				arena = filepath.Join(work, "w99999") // same length as the others: absolute link targets keep their size
+			}
 			if err := materialiseP(arena, c.Nodes); err != nil {
+				if isReplay {
+					rep.EndReplay()
+				}
 				continue
 			}
 			src := strings.Replace(c.Src, "@ARENA@", arena, 1)
@@ -849,8 +945,20 @@ func init() {
 					stride = 1
 				}
 				var ks []int
-				for k := r.Intn(stride); k < n; k += stride {
-					ks = append(ks, k)
+				if !isReplay {
+					for k := r.Intn(stride); k < n; k += stride {
+						ks = append(ks, k)
+					}
+				}
+				if isReplay {
+					// the recorded offset first; the stride offsets come from a stream of their own
+					if rin.FailAfter != nil && *rin.FailAfter >= 0 {
+						ks = append(ks, *rin.FailAfter)
+					}
+					rr := NewRng(cfg.Seed ^ 0x5eed)
+					for k := rr.Intn(stride); k < n; k += stride {
+						ks = append(ks, k)
+					}
 				}
 				for k := n - 40; k < n; k++ {
 					if k >= 0 {
@@ -888,6 +996,9 @@ func init() {
 				return nil
 			})
 			os.RemoveAll(arena)
+			if isReplay {
+				rep.EndReplay()
+			}
 		}
 		rep.Exhaustive = cfg.Tier == "thorough"
 	}
@@ -917,17 +1028,15 @@ func init() {
 		defer os.Chdir(origWd)
 		var reqs, impl []string
 		var human []interface{}
-		for a := 0; a < cfg.N; a++ {
-			c := genPCase(r)
-			c.Allow = nil
-			// root links used by some variants
-			c.Nodes = append(c.Nodes,
-				PNode{Path: "abslink", Kind: "l", Data: "@ARENA@/p/src"},
-				PNode{Path: "p/rellink", Kind: "l", Data: "src"},
-				PNode{Path: "chain2", Kind: "l", Data: "@ARENA@/abslink"})
+		// root links used by some variants
+		rootLinks := []PNode{
+			{Path: "abslink", Kind: "l", Data: "@ARENA@/p/src"},
+			{Path: "p/rellink", Kind: "l", Data: "src"},
+			{Path: "chain2", Kind: "l", Data: "@ARENA@/abslink"}}
+		runOne := func(a int, c *PCase, isReplay bool) {
 			arena := filepath.Join(work, fmt.Sprintf("s%05d", a))
 			if err := materialiseP(arena, c.Nodes); err != nil {
-				continue
+				return
 			}
 			fsdump := snapshotNS(arena)
 			abs := arena + "/p/src"
@@ -1103,7 +1212,7 @@ func init() {
 			// history (c): ONE Packer used by overlapping Pack calls on two directories with different rule
 			// files; each slug must be what a fresh Packer gives for that directory (seed C16-e: the parsed
 			// rules kept in the Packer)
-			if a%4 == 0 {
+			if a%4 == 0 || isReplay {
 				sdir := filepath.Join(work, fmt.Sprintf("c%05d", a))
 				mk := func(root, rules string) {
 					os.MkdirAll(filepath.Join(root, "sub"), 0755)
@@ -1179,6 +1288,49 @@ func init() {
 				return nil
 			})
 			os.RemoveAll(arena)
+		}
+		// exact replay (-case): the recorded tree (an oracle failure records the case itself or
+		// {"case": ..., "variant": ...}; a difference records the latter) goes first through all
+		// spellings, histories and the concurrent group
+		{
+			var wrapped struct {
+				Case *PCase `json:"case"`
+			}
+			var rc *PCase
+			if loadReplayInput(cfg, "pack-spelling", &wrapped) && wrapped.Case != nil {
+				rc = wrapped.Case
+			} else {
+				var plain PCase
+				if loadReplayInput(cfg, "pack-spelling", &plain) && len(plain.Nodes) > 0 {
+					rc = &plain
+				}
+			}
+			if rc == nil {
+				replayMissing(cfg, rep, "pack-spelling")
+			} else if why := unsafeReplayedPCase(rc); why != "" {
+				rep.ReplayNote("refused: " + why)
+			} else {
+				rc.Allow = nil
+				have := map[string]bool{}
+				for _, n := range rc.Nodes {
+					have[n.Path] = true
+				}
+				for _, l := range rootLinks {
+					if !have[l.Path] {
+						rc.Nodes = append(rc.Nodes, l)
+					}
+				}
+				s0 := len(reqs)
+				rep.BeginReplay()
+				runOne(cfg.N, rc, true)
+				rep.EndReplay(reqs[s0:]...)
+			}
+		}
+		for a := 0; a < cfg.N; a++ {
+			c := genPCase(r)
+			c.Allow = nil
+			c.Nodes = append(c.Nodes, rootLinks...)
+			runOne(a, c, false)
 		}
 		rep.Compare(cfg.Driver, reqs, impl, human)
 	}
